@@ -1368,6 +1368,14 @@ class Tr:
         if isinstance(s, ast.Expr):
             if isinstance(s.value, ast.Constant):
                 return []
+            v = s.value
+            if isinstance(v, ast.Call) and isinstance(v.func, ast.Attribute) and v.func.attr == 'pop' and \
+                    isinstance(v.func.value, ast.Name) and self.is_dict(v.func.value.id) and len(v.args) == 2 and \
+                    const_str(v.args[0]) is not None and not v.keywords:
+                # d.pop('k', default) as a statement: the value is discarded, the key is removed = reset of that key
+                d = v.func.value.id
+                self.lift(d)
+                return self.expr(v.args[1]) + [('ev', ('Reset', P.site(self.fn, s, f'{d}.pop'), d, [const_str(v.args[0])]))]
             return self.expr(s.value)
         if isinstance(s, (ast.Assign, ast.AnnAssign)):
             targets = s.targets if isinstance(s, ast.Assign) else [s.target]
